@@ -351,6 +351,62 @@ func bodyConc(p pred, hist []wop, backpressure bool, name string) func() {
 	}
 }
 
+// bodySeedThenList: a subscription is opened and, before its consumer has read a thing, the same caller writes an
+// item and lists the collection (and opens a second subscription) with another predicate: the first subscriber's
+// seed is still ITS filtered list as it was when it subscribed, and folding seed and events gives its filtered
+// collection as it is now.
+func bodySeedThenList(p, other pred, name string) func() {
+	return func() {
+		col := resource.NewCollection(resource.WithInitialRecord("a", msg(1)), resource.WithInitialRecord("b", msg(2)))
+		ctx, cancel := context.WithCancel(context.Background())
+		defer cancel()
+		view := map[string]int{}
+		var seed []string
+		seedWant := listStr(col, p)
+		ch := col.Pull(ctx, resource.WithInclude(p.fn()))
+		if _, err := col.Update("b", msg(1)); err != nil {
+			verifrt.Logf("FAIL seed-then-list-write %s ## %v", name, err)
+		}
+		listed := realList(col, other)
+		ch2 := col.Pull(ctx, resource.WithInclude(other.fn()))
+		go func() {
+			for e := range ch {
+				if e.SeedValue {
+					seed = append(seed, fmt.Sprintf("%s=%d", e.Id, vOf(e.NewValue)))
+				}
+				if e.ChangeType == types.ChangeType_REMOVE {
+					delete(view, e.Id)
+				} else {
+					view[e.Id] = vOf(e.NewValue)
+				}
+			}
+		}()
+		go func() {
+			for range ch2 {
+			}
+		}()
+		verifrt.WaitIdle()
+		var parts, wl []string
+		for _, id := range []string{"a", "b"} {
+			if v, ok := view[id]; ok {
+				parts = append(parts, fmt.Sprintf("%s=%d", id, v))
+			}
+			if m, ok := col.Get(id); ok && other.holds(id, vOf(m)) {
+				wl = append(wl, fmt.Sprint(vOf(m)))
+			}
+		}
+		if got := strings.Join(seed, ","); got != seedWant {
+			verifrt.Logf("FAIL seed-then-list-seed %s ## the subscriber was seeded with {%s}, its filtered collection was {%s} when it subscribed", name, got, seedWant)
+		}
+		if v, l := strings.Join(parts, ","), listStr(col, p); v != l {
+			verifrt.Logf("FAIL seed-then-list %s ## the folded filtered stream is {%s}, the filtered collection is {%s}", name, v, l)
+		}
+		if listed != strings.Join(wl, ",") {
+			verifrt.Logf("FAIL seed-then-list-list %s ## List(WithInclude) gives [%s], the filtered collection is [%s]", name, listed, strings.Join(wl, ","))
+		}
+	}
+}
+
 type bcase struct {
 	P      int
 	H      []wop
@@ -561,6 +617,11 @@ func main() {
 				}), hx.StdOracle)
 			}
 		}
+	}
+	for _, pp := range [][2]int{{0b111111, 0b111111}, {0b111111, 0b010000}, {0b100010, 0b111111}, {0b100000, 0b010010}} {
+		p, o := pred(pp[0]), pred(pp[1])
+		name := fmt.Sprintf("seed-then-list/Pull %v; update b; List and Pull %v/a=1,b=2", p, o)
+		h.Sched(name, 2, 3, bodySeedThenList(p, o, name), hx.StdOracle)
 	}
 	// the subscription opened concurrently with the writes
 	for _, p := range []int{0b111111, 0b000110, 0b010010} {
